@@ -254,6 +254,7 @@ type walker struct {
 	sa           *staticAnalysis
 	locks        map[string]bool // acquire contexts, channel ops, spawns
 	fields       map[string]bool
+	writes       map[string]bool // every write of a tracked / watched field with its held context
 	stack        []string
 	alias        map[types.Object]string // local variable -> channel name it was loaded from
 	lockAlias    map[types.Object]string // local variable / parameter -> lock class of the mutex it points to
@@ -356,7 +357,22 @@ func trackedField(key string) string {
 			return f
 		}
 	}
+	for _, t := range watchedTypes {
+		if strings.HasPrefix(key, t) {
+			f := strings.TrimPrefix(key, pktPath)
+			f = strings.TrimPrefix(f, "/handlers/")
+			return "imm:" + strings.TrimPrefix(f, ".")
+		}
+	}
 	return ""
+}
+
+// structs whose every field is shared state: a write to a field the model does not track (it treats those as
+// set at construction) is reported as "imm:<Type>.<field>"
+var watchedTypes = []string{
+	pktPath + ".Session.", pktPath + ".Host.", pktPath + ".MACEntry.", pktPath + ".HostTable.", pktPath + ".MACTable.",
+	pktPath + "/handlers/arp_spoofer.Handler.", pktPath + "/handlers/icmp_spoofer.Handler6.",
+	pktPath + "/handlers/dhcp4_spoofer.Handler.", pktPath + "/handlers/dns_naming.DNSHandler.",
 }
 
 // lockClass: the class of the mutex a Lock/RLock/Unlock/RUnlock call operates on ("" = not a tracked lock)
@@ -484,6 +500,12 @@ func (w *walker) access(field string, write bool, held []heldLock) {
 	if field == "" {
 		return
 	}
+	if write {
+		w.writes[field+":w@"+heldText(held)] = true
+	}
+	if strings.HasPrefix(field, "imm:") {
+		return
+	}
 	hasW := false
 	for _, l := range held {
 		if l.mode == "W" {
@@ -543,7 +565,13 @@ func (w *walker) expr(fb *funcBody, e ast.Node, held []heldLock, depth int, writ
 		case *ast.FuncLit:
 			return false // runs elsewhere (goroutine bodies are units of their own; deferred literals are walked by the caller)
 		case *ast.CompositeLit:
-			// a fresh record: its field keys are not accesses; the values are walked
+			// a fresh record: its field keys are not accesses; the values are walked.  A new Host is the one record
+			// the model initialises explicitly (it is published through HostTable/HostList): all its tracked fields
+			if tv, ok := fb.pkg.info.Types[x]; ok && typeKey(tv.Type) == pktPath+".Host" {
+				for _, f := range []string{"Host.LastSeen", "Host.Online", "Host.dirty", "Host.HuntStage", "Host.Manufacturer", "Host.Names"} {
+					w.access(f, true, held)
+				}
+			}
 			for _, el := range x.Elts {
 				if kv, ok := el.(*ast.KeyValueExpr); ok {
 					held = w.expr(fb, kv.Value, held, depth, writes)
@@ -563,7 +591,9 @@ func (w *walker) expr(fb *funcBody, e ast.Node, held []heldLock, depth int, writ
 				}
 			}
 			if !writes[x] {
-				w.access(w.fieldOfExpr(fb.pkg, x), false, held)
+				if f := w.fieldOfExpr(fb.pkg, x); !strings.HasPrefix(f, "imm:") {
+					w.access(f, false, held)
+				}
 			}
 		case *ast.Ident:
 			if !writes[x] {
@@ -978,12 +1008,73 @@ func (w *walker) clauses(fb *funcBody, body *ast.BlockStmt, held []heldLock, dep
 }
 
 // analyse one entry function: canonical texts of the two compared observables
+// goCensus: the goroutines started by every `go` statement of the five packages (set of model operation names)
+func (sa *staticAnalysis) goCensus() string {
+	set := map[string]bool{}
+	for _, fb := range sa.funcs {
+		if strings.Contains(fb.name, "#") {
+			continue // literals are visited through their enclosing function
+		}
+		k := 0
+		ast.Inspect(fb.body, func(n ast.Node) bool {
+			g, ok := n.(*ast.GoStmt)
+			if !ok {
+				return true
+			}
+			name := ""
+			if _, ok := g.Call.Fun.(*ast.FuncLit); ok {
+				k++
+				name = fmt.Sprintf("%s#%d", fb.name, k)
+			} else {
+				var fn *types.Func
+				switch f := g.Call.Fun.(type) {
+				case *ast.Ident:
+					fn, _ = fb.pkg.info.Uses[f].(*types.Func)
+				case *ast.SelectorExpr:
+					if sel := fb.pkg.info.Selections[f]; sel != nil {
+						fn, _ = sel.Obj().(*types.Func)
+					}
+				}
+				if fn != nil {
+					name = fn.FullName()
+				}
+			}
+			if op, ok := censusOp[name]; ok {
+				set[op] = true
+			} else {
+				set["?"+name] = true
+			}
+			return true
+		})
+	}
+	return setText(set)
+}
+
+var censusOp = map[string]string{
+	"(" + pktPath + ".Config).NewSession#1":                                 "nicMonitor",
+	"(" + pktPath + ".Config).NewSession#2":                                 "minuteLoop",
+	"(*" + pktPath + "/handlers/icmp_spoofer.RADVS).sendAdvertistementLoop": "icmp6.radvs",
+}
+
+func init() {
+	for k, v := range spawnOp {
+		if v != "" {
+			censusOp[k] = v
+		}
+	}
+}
+
 func (sa *staticAnalysis) analyse(fn string) (locks, unlocked string, ok bool) {
+	l, u, _, k := sa.analyse3(fn)
+	return l, u, k
+}
+
+func (sa *staticAnalysis) analyse3(fn string) (locks, unlocked, writes string, ok bool) {
 	fb := sa.funcs[fn]
 	if fb == nil {
-		return "", "", false
+		return "", "", "", false
 	}
-	w := &walker{sa: sa, locks: map[string]bool{}, fields: map[string]bool{}, alias: map[types.Object]string{},
+	w := &walker{sa: sa, locks: map[string]bool{}, fields: map[string]bool{}, writes: map[string]bool{}, alias: map[types.Object]string{},
 		lockAlias: map[types.Object]string{}}
 	// a literal's enclosing function supplies the lits table used to name nested go statements
 	left := w.function(fb, nil, 0)
@@ -991,9 +1082,9 @@ func (sa *staticAnalysis) analyse(fn string) (locks, unlocked string, ok bool) {
 		sa.unrec["held-at-exit:"+fn]++
 	}
 	if w.unrecognised != "" { // never a silent drop: no case is emitted for this entry function
-		return "unrecognised:" + w.unrecognised, "unrecognised:" + w.unrecognised, true
+		return "unrecognised:" + w.unrecognised, "unrecognised:" + w.unrecognised, "unrecognised:" + w.unrecognised, true
 	}
-	return setText(w.locks), setText(w.fields), true
+	return setText(w.locks), setText(w.fields), setText(w.writes), true
 }
 
 func setText(m map[string]bool) string {
